@@ -10,24 +10,40 @@ import (
 )
 
 type Solver struct {
+	bin     string
 	cmd     *exec.Cmd
-	in      io.WriteCloser
+	in      *bufio.Writer
+	inRaw   io.WriteCloser
 	out     *bufio.Reader
 	nDef    int
+	nSym    int
 	Queries int
 	Sat     int
 	Unsat   int
 	Unknown int
+	Errors  int
 	Time    time.Duration
+	MaxQ    time.Duration
 	log     io.Writer
 	facts   *Facts
-	Prof    map[string]int
+	depth   int
+	// scoped caches (e.g. map tables defined with define-fun): key -> depth defined at
+	scoped map[interface{}]scopedEnt
+	// all assertions currently on the stack (for cross-checking with another solver)
+	PreHits int
+	LastErr string
 }
 
-func NewSolver(bin string, seed int, log io.Writer) (*Solver, error) {
+type scopedEnt struct {
+	depth int
+	val   interface{}
+}
+
+func NewSolver(bin string, seed int, timeoutMs int, log io.Writer) (*Solver, error) {
 	args := []string{"-in"}
-	if strings.Contains(bin, "cvc5") {
-		args = []string{"--incremental", "--produce-models", "--lang=smt2"}
+	isCvc := strings.Contains(bin, "cvc5")
+	if isCvc {
+		args = []string{"--incremental", "--produce-models", "--lang=smt2", fmt.Sprintf("--tlimit-per=%d", timeoutMs)}
 	}
 	cmd := exec.Command(bin, args...)
 	in, err := cmd.StdinPipe()
@@ -42,10 +58,11 @@ func NewSolver(bin string, seed int, log io.Writer) (*Solver, error) {
 	if err := cmd.Start(); err != nil {
 		return nil, err
 	}
-	s := &Solver{cmd: cmd, in: in, out: bufio.NewReaderSize(outp, 1<<20), log: log, facts: NewFacts()}
+	s := &Solver{bin: bin, cmd: cmd, inRaw: in, in: bufio.NewWriterSize(in, 1<<16), out: bufio.NewReaderSize(outp, 1<<20), log: log, facts: NewFacts(), scoped: map[interface{}]scopedEnt{}}
 	s.send("(set-option :produce-models true)")
-	if !strings.Contains(bin, "cvc5") {
+	if !isCvc {
 		s.send(fmt.Sprintf("(set-option :random-seed %d)", seed))
+		s.send(fmt.Sprintf("(set-option :timeout %d)", timeoutMs))
 	}
 	return s, nil
 }
@@ -54,14 +71,42 @@ func (s *Solver) send(line string) {
 	if s.log != nil {
 		fmt.Fprintln(s.log, line)
 	}
-	io.WriteString(s.in, line)
-	io.WriteString(s.in, "\n")
+	s.in.WriteString(line)
+	s.in.WriteString("\n")
 }
 
-func (s *Solver) Push() { s.send("(push 1)"); s.facts.Push() }
-func (s *Solver) Pop()  { s.send("(pop 1)"); s.facts.Pop() }
+func (s *Solver) Push() { s.send("(push 1)"); s.facts.Push(); s.depth++ }
+func (s *Solver) Pop() {
+	s.send("(pop 1)")
+	s.facts.Pop()
+	s.depth--
+	for k, e := range s.scoped {
+		if e.depth > s.depth {
+			delete(s.scoped, k)
+		}
+	}
+}
+
+func (s *Solver) ScopedGet(k interface{}) (interface{}, bool) {
+	e, ok := s.scoped[k]
+	return e.val, ok
+}
+func (s *Solver) ScopedPut(k, v interface{}) { s.scoped[k] = scopedEnt{s.depth, v} }
 
 func (s *Solver) Declare(name, sort string) { s.send(fmt.Sprintf("(declare-const %s %s)", name, sort)) }
+
+// Fresh declares a fresh constant.
+func (s *Solver) Fresh(prefix string, w int) *Term {
+	s.nSym++
+	n := fmt.Sprintf("%s!%d", prefix, s.nSym)
+	s.Declare(n, sortOf(w))
+	return &Term{s: n, w: w}
+}
+
+func (s *Solver) FreshName(prefix string) string {
+	s.nSym++
+	return fmt.Sprintf("%s!%d", prefix, s.nSym)
+}
 
 func (s *Solver) Assert(t *Term) {
 	if t.isConst && t.v == 1 {
@@ -73,7 +118,7 @@ func (s *Solver) Assert(t *Term) {
 
 // Name gives a long term a short name in the current scope.
 func (s *Solver) Name(t *Term) *Term {
-	if t.isConst || len(t.s) < 160 {
+	if t.isConst || len(t.s) <= nameThreshold {
 		return t
 	}
 	s.nDef++
@@ -85,7 +130,7 @@ func (s *Solver) Name(t *Term) *Term {
 func (s *Solver) readLine() string {
 	l, err := s.out.ReadString('\n')
 	if err != nil {
-		panic("solver died: " + err.Error())
+		panic(execErr{"solver died: " + err.Error()})
 	}
 	return strings.TrimSpace(l)
 }
@@ -93,7 +138,12 @@ func (s *Solver) readLine() string {
 // Check returns "sat", "unsat" or "unknown" for the current assertions plus extra.
 func (s *Solver) Check(extra ...*Term) string {
 	if len(extra) == 1 {
-		if v, ok := s.facts.Decide(extra[0]); ok {
+		if extra[0].isConst {
+			if extra[0].v == 0 {
+				return "unsat"
+			}
+		} else if v, ok := s.facts.Decide(extra[0]); ok {
+			s.PreHits++
 			if v {
 				return "sat"
 			}
@@ -102,32 +152,44 @@ func (s *Solver) Check(extra ...*Term) string {
 	}
 	t0 := time.Now()
 	s.Queries++
-	if len(extra) == 1 && s.Prof != nil {
-		k := extra[0].s
-		if len(k) > 70 {
-			k = k[:70]
-		}
-		s.Prof[k]++
-	}
 	if len(extra) > 0 {
-		s.Push()
+		s.send("(push 1)")
 		for _, e := range extra {
-			s.Assert(e)
+			if !(e.isConst && e.v == 1) {
+				s.send("(assert " + e.s + ")")
+			}
 		}
 	}
 	s.send("(check-sat)")
-	res := s.readLine()
-	for res == "" {
-		res = s.readLine()
-	}
-	if strings.Contains(res, "(error") || (res != "sat" && res != "unsat") {
-		if s.log != nil {
-			fmt.Fprintln(s.log, "; SOLVER SAID: "+res)
+	s.send("(echo \"@@done\")")
+	s.in.Flush()
+	res := "unknown"
+	sawErr := false
+	for {
+		l := s.readLine()
+		if strings.Contains(l, "@@done") {
+			break
 		}
+		if strings.Contains(l, "(error") {
+			sawErr = true
+			if s.log != nil {
+				fmt.Fprintln(s.log, "; SOLVER SAID: "+l)
+			}
+			if len(s.LastErr) < 400 {
+				s.LastErr = l
+			}
+			continue
+		}
+		if l == "sat" || l == "unsat" || l == "unknown" {
+			res = l
+		}
+	}
+	if sawErr {
+		s.Errors++
 		res = "unknown"
 	}
 	if len(extra) > 0 {
-		s.Pop()
+		s.send("(pop 1)")
 	}
 	switch res {
 	case "sat":
@@ -137,32 +199,148 @@ func (s *Solver) Check(extra ...*Term) string {
 	default:
 		s.Unknown++
 	}
-	s.Time += time.Since(t0)
-	return res
-}
-
-// GetValues returns the values of the given terms in the current model.
-func (s *Solver) GetValues(ts []string) map[string]string {
-	res := map[string]string{}
-	for _, t := range ts {
-		s.send("(get-value (" + t + "))")
-		l := s.readLine()
-		// ((t #x..))
-		l = strings.TrimSpace(l)
-		if strings.HasPrefix(l, "((") && strings.HasSuffix(l, "))") {
-			body := l[2 : len(l)-2]
-			if strings.HasPrefix(body, t+" ") {
-				res[t] = strings.TrimSpace(body[len(t)+1:])
-				continue
-			}
-		}
-		res[t] = l
+	d := time.Since(t0)
+	s.Time += d
+	if d > s.MaxQ {
+		s.MaxQ = d
 	}
 	return res
 }
 
+// CheckKeep is like Check(extra) but, when the answer is sat, leaves the extra
+// assertions in place inside a new scope so that values can be read; the caller
+// must call Pop afterwards (in every case).
+func (s *Solver) CheckKeep(extra ...*Term) string {
+	s.Push()
+	for _, e := range extra {
+		s.Assert(e)
+	}
+	return s.Check()
+}
+
+// GetValues returns the values of the given terms in the current model (after a sat answer).
+func (s *Solver) GetValues(ts []string) []string {
+	res := make([]string, len(ts))
+	const batch = 256
+	for lo := 0; lo < len(ts); lo += batch {
+		hi := lo + batch
+		if hi > len(ts) {
+			hi = len(ts)
+		}
+		s.send("(get-value (" + strings.Join(ts[lo:hi], " ") + "))")
+		s.in.Flush()
+		// response: ((t v) (t v) ...) possibly over several lines; read until parens balance
+		var sb strings.Builder
+		depth, started := 0, false
+		for {
+			l := s.readLine()
+			sb.WriteString(l)
+			sb.WriteByte(' ')
+			for _, c := range l {
+				if c == '(' {
+					depth++
+					started = true
+				} else if c == ')' {
+					depth--
+				}
+			}
+			if started && depth <= 0 {
+				break
+			}
+			if !started && l != "" {
+				break
+			}
+		}
+		vals := parseValueList(sb.String())
+		for i := lo; i < hi; i++ {
+			if i-lo < len(vals) {
+				res[i] = vals[i-lo]
+			}
+		}
+	}
+	return res
+}
+
+// parseValueList parses "((t1 v1) (t2 v2))" and returns the v's as text.
+func parseValueList(s string) []string {
+	s = strings.TrimSpace(s)
+	if !strings.HasPrefix(s, "(") {
+		return nil
+	}
+	// split top-level pairs
+	var out []string
+	depth := 0
+	start := -1
+	for i, c := range s {
+		switch c {
+		case '(':
+			depth++
+			if depth == 2 {
+				start = i
+			}
+		case ')':
+			if depth == 2 && start >= 0 {
+				pair := s[start+1 : i]
+				out = append(out, lastSexp(pair))
+				start = -1
+			}
+			depth--
+		}
+	}
+	return out
+}
+
+// lastSexp returns the last s-expression (atom or list) of a string.
+func lastSexp(p string) string {
+	p = strings.TrimSpace(p)
+	if strings.HasSuffix(p, ")") {
+		depth := 0
+		for i := len(p) - 1; i >= 0; i-- {
+			if p[i] == ')' {
+				depth++
+			} else if p[i] == '(' {
+				depth--
+				if depth == 0 {
+					return p[i:]
+				}
+			}
+		}
+		return p
+	}
+	i := strings.LastIndexAny(p, " \t")
+	return p[i+1:]
+}
+
+// parseBV parses a bit-vector or Bool literal into a number.
+func parseBV(v string) (uint64, bool) {
+	v = strings.TrimSpace(v)
+	switch {
+	case v == "true":
+		return 1, true
+	case v == "false":
+		return 0, true
+	case strings.HasPrefix(v, "#x"):
+		var n uint64
+		_, err := fmt.Sscanf(v[2:], "%x", &n)
+		return n, err == nil
+	case strings.HasPrefix(v, "#b"):
+		var n uint64
+		for _, c := range v[2:] {
+			n = n<<1 | uint64(c-'0')
+		}
+		return n, true
+	case strings.HasPrefix(v, "(_ bv"):
+		var n uint64
+		var w int
+		_, err := fmt.Sscanf(v, "(_ bv%d %d)", &n, &w)
+		return n, err == nil
+	}
+	return 0, false
+}
+
 func (s *Solver) Close() {
 	s.send("(exit)")
-	s.in.Close()
+	s.in.Flush()
+	s.inRaw.Close()
 	s.cmd.Wait()
 }
